@@ -1009,13 +1009,16 @@ pub fn o_dirty(prop: &str, ops: &[Op], ex: &Exec) -> V {
     }
     // the history itself ended the session (explicit unmount, or plain drop = the documented implicit unmount)
     if let (Some((at_mount, after)), Some(Ok(_)), None) = (ex.epoch_end_status, ex.outs.last(), ex.fired_early) {
-        if after != at_mount {
+        // (mount-time bytes with reserved bits: only bits 0/1 are judged, decision 3.2(7))
+        let m = if at_mount > 3 { 3 } else { 0xFF };
+        if (after ^ at_mount) & m != 0 {
             let how = if matches!(ops.last(), Some(Op::DropRemount)) { "drop" } else { "unmount" };
             push(&mut v, format!("{prop}/{how}-did-not-restore-status"), format!("status byte {after:#04x} after {how}, {at_mount:#04x} when that session was mounted"));
         }
     }
     if let Some(Ok(())) = &ex.suffix.unmount {
-        if ex.suffix.status_unmounted != mount {
+        let m = if mount > 3 { 3 } else { 0xFF };
+        if (ex.suffix.status_unmounted ^ mount) & m != 0 {
             push(&mut v, format!("{prop}/unmount-did-not-restore-status/{kind}"), format!("status byte {:#04x} after unmount, mount-time {mount:#04x}", ex.suffix.status_unmounted));
         }
     }
